@@ -3,7 +3,9 @@
 import json, os, shutil, sys, re
 pid, n, det, checks, note = sys.argv[1], sys.argv[2], sys.argv[3], sys.argv[4], sys.argv[5]
 src = "/tmp/seedwork/%s" % pid
-dst = "/verif/seeded/%s-%s" % (pid, n)
+round2 = pid.endswith("b")
+prop = pid[:-1] if round2 else pid
+dst = "/verif/seeded/%s-%s" % (prop, int(n) + 2 if round2 else n)
 os.makedirs(dst, exist_ok=True)
 shutil.copy(src + "/change%s.diff" % n, dst + "/patch.diff")
 shutil.copy(src + "/demo%s.py" % n, dst + "/demo.py")
@@ -12,8 +14,9 @@ open(dst + "/notes.md", "w").write(notes)
 diff = open(dst + "/patch.diff").read()
 files = sorted(set(re.findall(r"^\+\+\+ b/(\S+)", diff, re.M)))
 meta = {
-    "property": pid,
-    "origin": "independent sub-agent given only the property text and a scratch worktree of /repo (no access to /verif)",
+    "property": prop,
+    "origin": "independent sub-agent given only the property text and a scratch worktree of /repo (no access to /verif)"
+              + ("; second round: told which two mechanisms had been used before and asked for caches / shared state / ordering assumptions / save-re-open effects / cooperating sites" if round2 else ""),
     "files_changed": files,
     "needs_to_manifest": "see notes.md (section for change %s)" % n,
     "confirmed_by_me": {
